@@ -3,4 +3,8 @@ package props
 
 import (
 	_ "verifharness/internal/c04"
+	_ "verifharness/internal/c05"
+	_ "verifharness/internal/c06"
+	_ "verifharness/internal/c07"
+	_ "verifharness/internal/c17"
 )
